@@ -38,7 +38,9 @@ class C07(Prop):
     ]
     rule = ("random well-formed ordinal instances (soc/soi/toc/toi, 2-7 alternatives, ids sparse or 1..m, storage "
             "order of alternatives shuffled, multiplicities 1-4), with alternatives tied everywhere or never ranked; "
-            "non-trivial = at least 2 distinct orders or a tie")
+            "non-trivial = at least 2 distinct orders or a tie; every fifth case grows one instance in two batches through the "
+            "append_* entry points, casting stored ballots again (several times per batch), and is judged against the "
+            "harness's own record of the ballots cast")
     budget = {"quick": 300, "thorough": 40000}
     anchors = [("preflibtools.properties.pairwisecomparisons", n) for n in
                ("pairwise_scores", "copeland_scores", "has_condorcet", "borda_scores")] + \
